@@ -81,6 +81,8 @@ def main():
         json.dump(res, open(os.path.join(d, "result.json"), "w"), indent=1)
         summary.append(res)
         print("%-22s %s detected=%s %s" % (sid, meta["property"], res.get("detected"), json.dumps({k: v["signatures"][:2] for k, v in res.get("checks", {}).items()})[:300]), flush=True)
+    # every scratch worktree leaves ~1 GB of entries in the Go build cache (paths differ): drop old ones
+    sh("find /root/.cache/go-build -type f -mmin +90 -delete")
     n = sum(1 for r in summary if r.get("detected"))
     print("detected %d of %d" % (n, len(summary)))
 
